@@ -25,6 +25,7 @@ def run(ctx: Ctx):
     rc.r_to_dict(ctx, rt, "C06")
     rc.r_registered_material(ctx, rt, "C06")
     rc.r_model_dict(ctx, rt, "C06")
+    rc.r_model_state(ctx, rt, "C06")
     ctx.floor("symbolic JSON round trips", n, 12)
     ctx.analysed["functions"] = ["isotherm_to_json", "isotherm_from_json", "BaseIsotherm.to_dict", "BaseIsotherm.__init__",
                                  "IsothermBaseModel.to_dict/__init__", "model_from_dict", "get_isotherm_model"]
